@@ -179,6 +179,9 @@ class C02Hook:
         self.ctx = ctx
 
     def start(self, w):
+        # the application keeps writing into what it was handed after the transaction ended (aborted or committed): content
+        # that changes this way changes without a version increase
+        w.late_writes = True
         self.oracle = Oracle(self.ctx, lb.snapshot(w.mdib), w.mdib_path)
 
     def before(self, w, script):
